@@ -319,24 +319,7 @@ class Parser:
     def parse_filter_selector(self, stream: TokenStream) -> FilterSelector:
         tok = stream.next_token()
         expr = self.parse_filter_expression(stream)
-
-        if isinstance(expr, FunctionExtension):
-            func = self.env.function_extensions.get(expr.name)
-            if (
-                func
-                and isinstance(func, FilterFunction)
-                and func.return_type == ExpressionType.VALUE
-            ):
-                raise JSONPathTypeError(
-                    f"result of {expr.name}() must be compared", token=tok
-                )
-
-        if isinstance(expr, FilterExpressionLiteral):
-            raise JSONPathSyntaxError(
-                "filter expression literals outside of "
-                "function expressions must be compared",
-                token=expr.token,
-            )
+        self._raise_for_non_test_expression(expr, tok)
 
         return FilterSelector(
             env=self.env,
@@ -398,13 +381,14 @@ class Parser:
     def parse_prefix_expression(self, stream: TokenStream) -> Expression:
         tok = stream.next_token()
         assert tok.type_ == TokenType.NOT
-        return PrefixExpression(
-            tok,
-            operator="!",
-            right=self.parse_filter_expression(
-                stream, precedence=self.PRECEDENCE_PREFIX
-            ),
-        )
+        if stream.current.type_ == TokenType.NOT:
+            # Only one logical not operator per test or parenthesized expression.
+            raise JSONPathSyntaxError(
+                f"unexpected {stream.current.value!r}", token=stream.current
+            )
+        right = self.parse_filter_expression(stream, precedence=self.PRECEDENCE_PREFIX)
+        self._raise_for_non_test_expression(right, tok)
+        return PrefixExpression(tok, operator="!", right=right)
 
     def parse_infix_expression(
         self, stream: TokenStream, left: Expression, *, left_grouped: bool = False
@@ -433,19 +417,8 @@ class Parser:
             self._raise_for_non_comparable_function(right, tok)
             return ComparisonExpression(tok, left, operator, right)
 
-        if isinstance(left, FilterExpressionLiteral):
-            raise JSONPathSyntaxError(
-                "filter expression literals outside of "
-                "function expressions must be compared",
-                token=left.token,
-            )
-        if isinstance(right, FilterExpressionLiteral):
-            raise JSONPathSyntaxError(
-                "filter expression literals outside of "
-                "function expressions must be compared",
-                token=right.token,
-            )
-
+        self._raise_for_non_test_expression(left, tok)
+        self._raise_for_non_test_expression(right, tok)
         return LogicalExpression(tok, left, operator, right)
 
     def parse_grouped_expression(self, stream: TokenStream) -> Expression:
@@ -681,6 +654,25 @@ class Parser:
 
     def _is_low_surrogate(self, codepoint: int) -> bool:
         return codepoint >= 0xDC00 and codepoint <= 0xDFFF
+
+    def _raise_for_non_test_expression(self, expr: Expression, token: Token) -> None:
+        """Raise if _expr_ is not valid as a test (or operand of `!`, `&&`, `||`)."""
+        if isinstance(expr, FilterExpressionLiteral):
+            raise JSONPathSyntaxError(
+                "filter expression literals outside of "
+                "function expressions must be compared",
+                token=expr.token,
+            )
+
+        if isinstance(expr, FunctionExtension):
+            func = self.env.function_extensions.get(expr.name)
+            if (
+                isinstance(func, FilterFunction)
+                and func.return_type == ExpressionType.VALUE
+            ):
+                raise JSONPathTypeError(
+                    f"result of {expr.name}() must be compared", token=token
+                )
 
     def _raise_for_non_comparable_expression(
         self, expr: Expression, token: Token
